@@ -32,6 +32,8 @@ def generate(ctx):
         names = ctx.rng.choice(["plain", "plain", "int", "adv"])
         op = OPS[i % len(OPS)]
         spec = falib.rand_fa(ctx.rng, names=names, history_p=0.25)
+        if i % 40 == 9 and op in ("copy", "accepts", "remove_epsilon_transitions"):
+            spec = falib.rand_fa(ctx.rng, kind="enfa", profile="epsonly", names=names)
         if op == "minimize" and ctx.rng.random() < 0.8:
             spec = falib.rand_big_dfa(ctx.rng)
         cases.append({"op": op, "fa": spec, "maxlen": 3 if ctx.tier == "quick" else 4})
